@@ -4,6 +4,7 @@
 package vharness
 
 import (
+	"os"
 	"errors"
 	"fmt"
 	"sort"
@@ -202,6 +203,12 @@ type Quiet struct {
 	GatesOpen bool
 }
 
+func init() {
+	if os.Getenv("VH_DUMP") != "" {
+		dumpEvents = true // replay aid: the worker's state is written into the event log at every rest
+	}
+}
+
 func NewH() *H {
 	h := &H{jobByTag: map[int]*JobRec{}, gates: map[int]chan struct{}{}, Beh: map[int]int{}, curAdd: map[int]int{}, Marks: map[string]int{},
 		vseen: map[string]bool{}, opened: map[int]bool{}, inCall: map[int]string{}, hist: 1469598103934665603, Shape: Yielding, CrashProp: "C03", HangProp: "C03"}
@@ -255,9 +262,13 @@ func (h *H) Quiesce(gatesOpen bool) {
 	if dumpEvents {
 		for _, w := range h.Ws {
 			if w.Wk != nil {
-				h.ev("mark", fmt.Sprintf("state %s idle=%d proc=%d pend=%d conc=%d poolGoroutines=%d", w.Wk.Status(), w.Wk.NumIdleWorkers(), w.Wk.NumProcessing(), w.Wk.NumPending(), w.Wk.NumConcurrency(), vrt.LiveLib("initPoolNode")), -1, "")
+				w := w
+				vrt.RawDo(func() {
+					h.Notes = append(h.Notes, fmt.Sprintf("@%d state %s idle=%d proc=%d pend=%d conc=%d poolGoroutines=%d", s, w.Wk.Status(), w.Wk.NumIdleWorkers(), w.Wk.NumProcessing(), w.Wk.NumPending(), w.Wk.NumConcurrency(), vrt.LiveLib("initPoolNode")))
+				})
 			}
 		}
+		fmt.Fprintln(os.Stderr, h.Notes[len(h.Notes)-1])
 	}
 	h.sampleQuiet()
 }
